@@ -182,6 +182,15 @@ T = {
  "C14-10": ("C14", "011957e", "two calls on one instance with write lists that are permutations of each other", ["C14"], "VIOLATION (native replay) by VerifC14Injective / VerifC14Reuse"),
  "C16-10": ("C16", "011957e", "a fetched log containing an entry of another database (filtered before the join)", ["C16"], "VIOLATION (native replay) by VerifC10Mixed (event-content oracle)"),
  "C18-10": ("C18", "011957e", "a peer on the database topic that never appears on the pairwise topic; the store is closed while its head exchange waits", ["C18"], "VIOLATION (virtual time) by VerifC18ConnectCancelled"),
+ # round 18 (base 011957e)
+ "C13-9": ("C13", "011957e", "a log whose snapshot file is larger than 256 KiB (buffered reader with unchecked short reads)", ["C13"], "VIOLATION (native replay) by VerifC13Snapshot"),
+ "C07-9": ("C07", "011957e", "a document read once, then overwritten by a REPLICATED operation, then read again", ["C07", "C01"], "VIOLATION (native replay) by VerifC01Docs"),
+ "C08-9": ("C08", "011957e", "an unbounded query with amount unset, 0 or 1 on a log with two or more heads", ["C08"], "VIOLATION (native replay) by VerifC08Writers (latest-entry oracle)"),
+ "C11-8": ("C11", "011957e", "the last worker of a burst to finish is a failed or cancelled fetch", ["C11"], "VIOLATION (native replay) by VerifC11Abort / VerifC11CancelAnywhere (labels other than the listed finding)"),
+ "C03-9": ("C03", "011957e", "a permitted writer's entry offered under the CLAIMED address of a non-writer's entry, then the non-writer's entry itself (ipfs access controller)", ["C03"], "VIOLATION (native replay) by VerifC03Instance (spoofed-address-first)"),
+ "C04-9": ("C04", "011957e", "a tampered ancestor rejected by live replication; SaveSnapshot, restart, LoadFromSnapshot into an empty store", ["C04"], "VIOLATION (native replay) by VerifC04SnapshotAfterReject"),
+ "C06-10": ("C06", "011957e", "put, delete and re-put of one key, then a rebuild of the view", ["C06", "C01"], "VIOLATION (native replay) by VerifC06Replay / VerifC01KV"),
+ "C01-10": ("C01", "011957e", "a batch put (PUTALL) one of whose documents was overwritten later", ["C01", "C07"], "VIOLATION (native replay) by VerifC01Docs"),
 }
 for seed, (prop, base, needs, by, note) in T.items():
     d = os.path.join(V, "seeded", seed)
